@@ -2,8 +2,8 @@
 # usage: harvest.sh <PROP> <mK> [check-prop...]   -- re-verifies one seeded change in the
 # scratch worktree /tmp/wt/scratch (at /repo HEAD) and, when it is confirmed, stores it
 # under /verif/seeded/<PROP>-<mK>/ and runs the named checks (default: PROP) against it.
-P=$1; M=$2; shift 2; CHECKS=${@:-$P}
-W=${HW:-/tmp/wt/scratch}; SRC=/tmp/wt/$P/mutants; TMPD=$W.tmp; mkdir -p $TMPD
+DIR=$1; P=${DIR:0:3}; M=$2; shift 2; CHECKS=${@:-$P}
+W=${HW:-/tmp/wt/scratch}; SRC=/tmp/wt/$DIR/mutants; TMPD=$W.tmp; mkdir -p $TMPD
 cd $W || exit 2
 git checkout -q -- . ; git clean -qfd -e src/quantity/version.py >/dev/null
 log() { echo "[$P-$M] $*"; }
